@@ -1,0 +1,25 @@
+//go:build verif
+
+// Contracts for package proof, checked by /verif/govc (comment-only; not part of any normal build).
+
+package proof
+
+// ---- C01: validity window of a proof ----
+//@ func (ProofOptions).ValidAt
+//@   prop C01 C02
+//@   pure
+//@   ensures [window] result == (!o.Created.After(at.Add(maxSkew)) && !(o.Expires != nil && (*o.Expires).Add(maxSkew).Before(at)))
+
+// ---- C01 / C17: JSON-LD proof verification: algorithm from the resolved key, never from the JWS header ----
+//@ func (LDProof).Verify
+//@   prop C01 C17 C19
+//@   safety
+//@   assume-benign
+//@   call (jws.Verifier).Verify #1 requires [alg-from-key-two-part-jws]
+//@        isNilIface(ret(call crypto.SignatureAlgorithm #1).1) && arg(call crypto.SignatureAlgorithm #1, 0) == key
+//@     && alg == ret(call crypto.SignatureAlgorithm #1).0
+//@     && arg(0) == ret(call jws.NewVerifier #1).0 && arg(call jws.NewVerifier #1, 0) == alg
+//@     && len(splittedJws) == 2 && arg(3) == key
+//@     && isNilIface(ret(call (signature.Suite).CanonicalizeDocument #1).1) && arg(call (signature.Suite).CanonicalizeDocument #1, 1) == any(document)
+//@     && isNilIface(ret(call (signature.Suite).CanonicalizeDocument #2).1)
+//@   ensures [success-only-if-verified] isNilIface(result) ==> did(call (jws.Verifier).Verify #1) && isNilIface(ret(call (jws.Verifier).Verify #1))
